@@ -133,8 +133,9 @@ def check_defs(defs):
     return out, nshared, nconf
 
 
-def check_array(x, label):
-    """All C04 facts on one collection.  Returns list of (signature, detail)."""
+def check_array(x, label, info=None):
+    """All C04 facts on one collection.  Returns list of (signature, detail).  `info` (a dict) receives the
+    executed block values (`values`) or the exception a task raised (`execute_error`)."""
     from dask.core import flatten
 
     bad = []
@@ -164,9 +165,13 @@ def check_array(x, label):
     if not missing and not cycle and not undefined and len(tasks) <= 400:
         try:
             values, _ = graphs.execute(tasks, rng=None, order="fifo")
-        except Exception:
+        except Exception as e:
             values = None  # a task raising at run time is not a statement about the graph's structure
             STATS["execute_raised"] = STATS.get("execute_raised", 0) + 1
+            if info is not None:
+                info["execute_error"] = e
+        if info is not None:
+            info["values"] = values
         if values is not None:
             for k in want:
                 shp = tuple(x.chunks[d][i] for d, i in enumerate(k[1:]))
@@ -386,7 +391,17 @@ def run(ctx, replay=None):
         "config-driven tree reductions) built under setting A, metadata (.chunks/.numblocks/keys/.name/graph/compute) read or not, "
         "graph taken under setting B = one lazily read planner option changed (options enumerated from the source: every "
         "config.get reachable from chunks/_lower/_simplify/_layer; all ordered value pairs of the two unify options on fresh "
-        "nested chunkings in every run) x optimize-graph on/off at graph build; distinct by (option, flavour, optimize flag, reads)"
+        "nested chunkings in every run) x optimize-graph on/off at graph build; distinct by (option, flavour, optimize flag, reads). "
+        "Repeated-operand stream: ONE consumer (50 forms: einsum / blockwise with permuted labels, tensordot, matmul, dot, outer, vdot, "
+        "where / elementwise / stack / concatenate / map_blocks with the operand and its transpose, self-broadcast) using the same "
+        "operand twice or three times under different index maps, the operand produced by 16 fusable / non-fusable producers, second "
+        "operand same / derived / transposed / independent, tied axes chunked alike or differently, optional consumer above; every "
+        "consumer and every producer walked in every run, then random cases. Array-parameter stream: 17 random distributions at "
+        "degenerate parameter values (exact NumPy value per block) x Generator / RandomState / module front ends x parameters scalar / "
+        "NumPy / dask (output-shaped, row, column, vector; rows / columns / irregular chunkings; parameter expressions; one array for two "
+        "parameters; keyword) x size given / derived x chunks auto / omitted / bytes / explicit under array.chunk-size 64B..128MiB, and the "
+        "*_like family; both x optimize-graph on/off; distinct by (consumer family, second, optimize, fused) / (distribution, front end, "
+        "parameter kinds, auto/explicit, optimize)"
     )
     ctx.assumptions = [
         "the layer contract is MONITORED (every real layer of every generated program), not proved for each layer class; "
@@ -407,6 +422,11 @@ def run(ctx, replay=None):
 
             for sig, detail in c04_drift.run_c04(ctx, case) or []:
                 ctx.fail(sig, case, detail)
+            return
+        if case.get("kind") in ("multiuse", "arrayparam"):  # repeated operands / array-valued parameters (c04_operands.py)
+            from harness.props_ext import c04_operands
+
+            c04_operands.replay(ctx, case)
             return
         fails = run_case(ctx, case) or []
         for sig, detail in fails:
@@ -454,6 +474,11 @@ def run(ctx, replay=None):
     from harness.props_ext import c04_drift
 
     c04_drift.run_c04_stream(ctx)
+    # ---- one consumer using the same operand under several index maps (fusable producers below); creation / random
+    # functions with array-valued parameters under chunks="auto" that really splits (harness/props_ext/c04_operands.py)
+    from harness.props_ext import c04_operands
+
+    c04_operands.run_stream(ctx)
     known_probe(ctx)
     ctx.notes.update(STATS)
     if ctx.disagreements:
@@ -547,3 +572,18 @@ def known_probe(ctx):
                 ctx.fail(sig, {"probe": sig}, bad[0][0] + ": " + bad[0][1])
         except Exception as e:
             ctx.fail(sig, {"probe": sig}, f"{type(e).__name__}: {str(e)[:200]}")
+    # regression probe (repaired in /repo 85d14bd): one operand carrying the same label on two axes chunked differently
+    # was not unified, so the diagonal blocks were not square (found by the repeated-operand stream,
+    # harness/props_ext/c04_operands.py, which keeps generating such inputs)
+    from harness.props_ext import c04_operands
+
+    sig = c04_operands.SIG_REPEATED_LABEL
+    what = "da.blockwise(np.diagonal, 'i', da.from_array(np.arange(16.).reshape(4, 4), chunks=((1, 3), (2, 2))), 'ii', dtype=float)"
+    try:
+        with dask.config.set({"array.optimize-graph": True}):
+            x = da.blockwise(np.diagonal, "i", da.from_array(np.arange(16.0).reshape(4, 4), chunks=((1, 3), (2, 2))), "ii", dtype=float)
+            bad, _, _ = check_array(x, "diagonal-blockwise")
+        if bad:
+            ctx.fail(sig, {"probe": sig, "program": what}, bad[0][0] + ": " + bad[0][1])
+    except Exception as e:
+        ctx.fail(sig, {"probe": sig, "program": what}, f"{type(e).__name__}: {str(e)[:200]}")
